@@ -12,6 +12,7 @@ import (
 	"strings"
 	"sync"
 	"testing"
+	"time"
 
 	"gopkg.in/yaml.v2"
 
@@ -19,6 +20,7 @@ import (
 	"github.com/fiorix/go-diameter/diam/dict"
 
 	chf_context "github.com/free5gc/chf/internal/context"
+	chf_cgf "github.com/free5gc/chf/internal/cgf"
 	"github.com/free5gc/chf/internal/sbi"
 	"github.com/free5gc/chf/pkg/abmf"
 	"github.com/free5gc/chf/pkg/factory"
@@ -108,13 +110,17 @@ func buildConfig(c *Chooser) (cfg ymap, mustReject []string) {
 	} else {
 		mustReject = append(mustReject, "missing-section:sbi")
 	}
-	switch c.Pick(10, "serviceNameList") {
+	switch c.Pick(12, "serviceNameList") {
 	case 7: // the same service twice in different spelling: rejected, or accepted and served - never accepted and fatal
 		conf["serviceNameList"] = []string{"nchf-convergedcharging", "Nchf-ConvergedCharging"}
 	case 8:
 		conf["serviceNameList"] = []string{"NCHF-CONVERGEDCHARGING"}
 	case 9:
 		conf["serviceNameList"] = []string{"nchf-spendinglimitcontrol"}
+	case 10: // a service that only answers "not implemented", listed twice
+		conf["serviceNameList"] = []string{"nchf-offlineonlycharging", "nchf-convergedcharging", "nchf-offlineonlycharging"}
+	case 11:
+		conf["serviceNameList"] = []string{"nchf-spendinglimitcontrol", "nchf-spendinglimitcontrol"}
 	case 0:
 		conf["serviceNameList"] = []string{"nchf-convergedcharging"}
 	case 1:
@@ -159,6 +165,12 @@ func buildConfig(c *Chooser) (cfg ymap, mustReject []string) {
 		}
 		if c.Pick(2, "cgf.hostIPv4") == 1 {
 			delete(g, "hostIPv4")
+		}
+		if c.Pick(2, "cgf.enable") == 1 {
+			// the CDR transfer (FTP) server is started as well; a listening port of this process's own
+			g["enable"] = true
+			g["listenPort"] = 22000 + os.Getpid()%5000
+			g["port"] = 22000 + os.Getpid()%5000
 		}
 		switch c.Pick(5, "cgf.ports") {
 		case 1:
@@ -319,6 +331,9 @@ func c20Job(t *testing.T, raw json.RawMessage) (any, error) {
 		}
 		// the real start-up sequence + one online update
 		crash := c20Start(t, cfg)
+		if crash == "" && cfg.Configuration.Cgf != nil && cfg.Configuration.Cgf.Enable {
+			crash = c20StartCgf(cfg)
+		}
 		if crash != "" {
 			find("accepted-configuration-crashes/"+c20Class(devs), desc+": "+oneLine(crash, 260))
 		}
@@ -329,6 +344,26 @@ func c20Job(t *testing.T, raw json.RawMessage) (any, error) {
 	})
 	os.Remove(marker)
 	return out, nil
+}
+
+// c20StartCgf: what ChfApp.Start does for an enabled CDR transfer: cgf.OpenServer (real FTP server on loopback, outside
+// the modelled world; stopped again at once). Only a panic counts.
+func c20StartCgf(cfg *factory.Config) (crash string) {
+	defer func() {
+		if r := recover(); r != nil {
+			crash = fmt.Sprintf("panic while starting the CDR transfer server: %v", r)
+		}
+	}()
+	factory.ChfConfig = cfg
+	ctx, cancel := context.WithCancel(context.Background())
+	var wg sync.WaitGroup
+	wg.Add(1)
+	chf_cgf.OpenServer(ctx, &wg)
+	time.Sleep(30 * time.Millisecond)
+	cancel()
+	time.Sleep(30 * time.Millisecond)
+	chf_cgf.CGFEnable = false
+	return
 }
 
 // c20Start: NewApp + what ChfApp.Start does before it blocks (without NRF registration and FTP), then a create
